@@ -17,6 +17,8 @@ namespace tapkee_internal
 __TAPKEE_IMPLEMENTATION(ManifoldSculpting)
     void validate()
     {
+        // the embedding keeps the first target_dimension of the features
+        parameters[target_dimension].checked().satisfies(InClosedRange<IndexType>(1, current_dimension)).orThrow();
         parameters[squishing_rate].checked().satisfies(InRange<ScalarType>(0.0, 1.0)).orThrow();
     }
 
